@@ -171,8 +171,21 @@ def lookalike_case(draw):
             "first_by_slice": False}
 
 
+@st.composite
+def int_array_case(draw):
+    """an integer ARRAY node re-assigned in a larger unit of its dimension (directly or by reference): it holds the exact
+    whole numbers, also where the float factor is inexact (1 us = 1000.0000000000001 ns)"""
+    small, big, factor = draw(st.sampled_from([("ns", "us", 1000), ("ns", "ms", 10 ** 6), ("mm", "m", 1000), ("mm", "cm", 10),
+                                               ("g", "kg", 1000), ("us", "ms", 1000), ("s", "min", 60)]))
+    first = draw(st.lists(st.integers(0, 9), min_size=3, max_size=3))
+    new = draw(st.lists(st.sampled_from([0, 1, 2, 3, 5, 7, 12, 250]), min_size=3, max_size=3))
+    return {"iarr": True, "small": small, "big": big, "factor": factor, "first": first, "new": new,
+            "how": draw(st.sampled_from(["direct", "by_reference", "typed"])), "declared": draw(st.booleans())}
+
+
 def strategies(tier):
-    return {"target": (target_case(), 3000, 60000), "lookalike": (lookalike_case(), 150, 2500)}
+    return {"target": (target_case(), 3000, 60000), "lookalike": (lookalike_case(), 150, 2500),
+            "int_array": (int_array_case(), 150, 2500)}
 
 
 # --------------------------------------------------------------------------- rendering and model
@@ -337,7 +350,38 @@ def check(case):
     return v
 
 
+def _check_int_array(case, v):
+    from scinumtools.dip import DIP, Format
+    lit = lambda xs: "[" + ",".join(str(x) for x in xs) + "]"
+    L = [f"x0 int[3] {case['small']}" if case["declared"] else f"x0 int[3] = {lit(case['first'])} {case['small']}"]
+    if case["how"] == "by_reference":
+        L += [f"h int[3] = {lit(case['new'])} {case['big']}", "x0 = {?h}"]
+    elif case["how"] == "typed":
+        L.append(f"x0 int[3] = {lit(case['new'])} {case['big']}")
+    else:
+        L.append(f"x0 = {lit(case['new'])} {case['big']}")
+    text = "\n".join(L)
+    v.info = {"text": text}
+    v.nt(True)
+    v.label("int_array", case["how"])
+    want = [x * case["factor"] for x in case["new"]]
+    try:
+        with DIP(name=f"c14_{next(_uid)}") as p:
+            p.add_string(text)
+            got = p.parse().data(Format.TUPLE)["x0"]
+    except Exception as e:
+        return v.fail("parse-raised", f"raised {e!r} for:\n{text}")
+    if not (isinstance(got, tuple) and got[1] == case["small"]):
+        return v.fail("unit", f"x0 = {got!r}, expected unit {case['small']!r}:\n{text}")
+    vals = D.to_py(got[0])
+    if not (isinstance(vals, list) and len(vals) == 3 and all(isinstance(x, int) and not isinstance(x, bool) for x in vals)
+            and vals == want):
+        return v.fail("value", f"x0 = {vals!r} {case['small']}, last assignment gives {want!r} {case['small']}:\n{text}")
+
+
 def _check(case, v):
+    if case.get("iarr"):
+        return _check_int_array(case, v)
     from scinumtools.dip import DIP, Format
     stage1, stage2 = render_stages(case)
     text = stage1 if stage2 is None else stage1 + "\n# ---- parsed on top of the returned environment ----\n" + stage2
